@@ -79,3 +79,41 @@ shape("NestedSampler", {
     "proposal": "Obj(ProposalAbs)",
     "model": "Obj(ModelAbs)",
 })
+
+# ---- importance nested sampler -----------------------------------------
+INS = "nessai/samplers/importancesampler.py"
+INS_LP = ("x:Sort(P),logP:Real,logL:Real,it:Int,logW:Real,logQ:Real,"
+          "logU:Real")
+INS_ARR = f"Struct({INS_LP})"
+
+shape("ImportanceNestedSampler", {
+    "nlive": "Int",
+    "min_remove": "Int",
+    "min_samples": "Int",
+    "draw_constant": "Bool",
+    "max_samples": "Opt(Int)",
+    "plot": "Bool",
+    "_plot_level_cdf": "Bool",
+    "output": "Any",
+    "iteration": "Int",
+})
+
+shape("OrderedSamplesAbs", {"samples": INS_ARR, "log_q": "Tbl(QRow)"})
+shape("ISProposalAbs", {}, methods={
+    "train": Contract("<abstract>", "ISProposalAbs.train",
+                      params={"samples": "Any", "plot": "Any",
+                              "weights": "Any"},
+                      trusted=True, modifies=[],
+                      trusted_reason="flow training: no sampler state")})
+from pyvc.contracts import SHAPES as _S
+_S["ImportanceNestedSampler"].attrs.update({
+    "training_samples": "Obj(OrderedSamplesAbs)",
+    "log_likelihood_threshold": "Real",
+    "current_training_samples": INS_ARR,
+    "current_training_log_q": "Tbl(QRow)",
+    "replace_all": "Bool",
+    "weighted_kl": "Bool",
+    "plot_training_data": "Bool",
+    "training_time": "Any",
+    "proposal": "Obj(ISProposalAbs)",
+})
